@@ -574,6 +574,11 @@ class Inliner:
                         return elem(it.args[k[0]])
                     if k and it.func.id == 'enumerate' and len(it.args) >= 1 and len(tgt.elts) == 2 and k[0] == 1:
                         return elem(it.args[0])
+                if isinstance(tgt, (ast.Tuple, ast.List)):
+                    # for a, b in pairs: a and b are DIFFERENT components of the element
+                    k = [i for i, t in enumerate(tgt.elts) if isinstance(t, ast.Name) and t.id == var]
+                    if k:
+                        return ast.Subscript(value=elem(it), slice=ast.Constant(value=k[0]), ctx=ast.Load())
                 return elem(it)
             return ast.Name(id='OPAQUE_' + d.kind, ctx=ast.Load())
         finally:
